@@ -1070,19 +1070,26 @@ impl<'a> Exec<'a> {
         let cuts: Vec<usize> = if b.len() <= 800 {
             (0..=b.len()).collect()
         } else {
-            let mut c: Vec<usize> = (0..64.min(b.len())).collect();
-            c.extend(b.len().saturating_sub(64)..=b.len());
+            // threshold-probing runs use a lighter set (their point is the corrupted byte and the
+            // end of the long element, both covered below)
+            let (edge, max_marks, before, after, random) = if t.thresh { (24, 24, 9, 10, 60) } else { (64, 60, 34, 36, 200) };
+            let mut c: Vec<usize> = (0..edge.min(b.len())).collect();
+            c.extend(b.len().saturating_sub(edge)..=b.len());
             let mut marks = 0;
             for (i, &x) in b.iter().enumerate() {
-                if matches!(x, b' ' | b':' | b'\r' | b'\n' | b'\t') && marks < 60 {
+                if matches!(x, b' ' | b':' | b'\r' | b'\n' | b'\t') && marks < max_marks {
                     if i == 0 || !matches!(b[i - 1], b' ' | b':' | b'\r' | b'\n' | b'\t') {
                         marks += 1;
-                        c.extend(i.saturating_sub(34)..(i + 36).min(b.len()));
+                        c.extend(i.saturating_sub(before)..(i + after).min(b.len()));
                     }
                 }
             }
+            // every cut around a corrupted byte: a verdict must not wait for bytes behind it
+            for f in &self.t.conns[0].faults {
+                c.extend(f.at.saturating_sub(40).min(b.len())..(f.at + 72).min(b.len() + 1));
+            }
             let mut r = Rng::new(t.knob_seed ^ 0xc0ffee);
-            for _ in 0..200 {
+            for _ in 0..random {
                 c.push(r.below(b.len() + 1));
             }
             if let Some(m) = self.t.conns[0].truth.first() {
@@ -1217,6 +1224,8 @@ impl<'a> Exec<'a> {
         let n = t.ops.len();
         let mut h = 0u64;
         let mut longest: Option<(*mut u8, Vec<u8>)> = None;
+        let mut specs: Vec<(CallSpec, Option<&'static [u8]>, Place)> = Vec::new();
+        let mut last: Option<Obs> = None;
         for (i, op) in t.ops.iter().enumerate() {
             let spec = CallSpec { kind: t.kind, entry: op.entry, cfg: op.cfg, cap: if i == 0 || op.entry >= 2 { if i == 0 && op.entry < 2 { t.cap } else { op.cap } } else { t.cap }, backend: t.backend, arr_guard: t.arr_guard, alloc_mode: t.alloc_mode };
             let place = if i % 2 == 0 { Place::END } else { Place { mode: Mode::Mid, align: (i * 13 % 64) as u8, tail: Tail::Stale } };
@@ -1246,9 +1255,61 @@ impl<'a> Exec<'a> {
             }
             let o = self.checked_at(&mut sess, &spec, &op.buf, pre, place, &[], true, Scen::Reuse);
             h = mix(h ^ o.st.class() as u64);
-            let _ = n;
+            specs.push((spec, pre, place));
+            last = Some(o);
         }
         self.stats.interleavings.insert(h);
+        // ---- C16 on a kept value: the same history again on a second value, the probe issued
+        // through another entry point with the capacity the first probe saw; status and
+        // start-line fields (headers too on Complete) must agree
+        if self.on(16) && n >= 2 {
+            if let Some(a) = last.filter(|a| a.st != St::Panic) {
+                let (pspec, _, _) = specs[n - 1];
+                let alts: &[u8] = if pspec.cfg == 0 { &[0, 1, 2, 3] } else { &[1, 3] };
+                let e = alts[((t.knob_seed >> 7) as usize) % alts.len()];
+                if e != pspec.entry {
+                    let mut s2 = Session::new();
+                    let mut b: Option<Obs> = None;
+                    for (i, op) in t.ops.iter().enumerate() {
+                        let (mut sp, pre, place) = specs[i];
+                        if i + 1 == n {
+                            sp.entry = e;
+                            sp.cap = a.eff_cap;
+                            if e < 2 && s2.current_cap().map_or(sp.cap, |c| c) != a.eff_cap {
+                                break;
+                            }
+                        }
+                        let buf = match pre {
+                            Some(b) => b,
+                            None => self.arena.place(&op.buf, place, &[]),
+                        };
+                        let o = s2.call(self.arena, &sp, buf, true);
+                        if o.st == St::Panic {
+                            break;
+                        }
+                        if i + 1 == n {
+                            b = Some(o);
+                        }
+                    }
+                    if let Some(b) = b {
+                        self.stats.evaluations[16] += 1;
+                        let fb = |x: &Option<crate::sut::FieldObs>| x.as_ref().map(|f| f.bytes.clone());
+                        let mut d: Option<String> = None;
+                        if a.st != b.st {
+                            d = Some(format!("status {:?} vs {:?}", a.st, b.st));
+                        } else if a.st.is_complete() {
+                            d = same_full(&a, &b);
+                        } else if fb(&a.method) != fb(&b.method) || fb(&a.path) != fb(&b.path) || a.version != b.version || a.code != b.code || fb(&a.reason) != fb(&b.reason) {
+                            d = Some(format!("start-line fields after {:?} differ (version {:?} vs {:?}, code {:?} vs {:?}, method/path/reason set: {}{}{} vs {}{}{})", a.st, a.version, b.version, a.code, b.code, a.method.is_some() as u8, a.path.is_some() as u8, a.reason.is_some() as u8, b.method.is_some() as u8, b.path.is_some() as u8, b.reason.is_some() as u8));
+                        }
+                        if let Some(d) = d {
+                            let k = t.kind as usize;
+                            self.push(16, "history-entry-point-agreement", format!("after the same {} earlier calls on the value, {} vs {}: {} | probe {}", n - 1, crate::sut::ENTRY_NAMES[k][pspec.entry as usize], crate::sut::ENTRY_NAMES[k][e as usize], d, brief(&t.ops[n - 1].buf)));
+                        }
+                    }
+                }
+            }
+        }
     }
 
     pub fn run_single(&mut self) {
